@@ -1,0 +1,13 @@
+//go:build verif
+// +build verif
+
+package isaacdatabase
+
+// VerifPermGate is called by the permanent databases' State() at the two points between
+// which a merge can slip in: "state-cache-miss" (the state cache was asked and had
+// nothing) and "state-loaded" (the state was read from the storage and is about to be
+// put into the state cache). The harness installs a function that blocks the calling
+// goroutine until a forced schedule releases it.
+var VerifPermGate = func(point string, key string) {}
+
+func verifPermGate(point, key string) { VerifPermGate(point, key) }
